@@ -3,7 +3,10 @@ use super::job_queue::*;
 use super::queue_state::*;
 use super::wake_queue::*;
 
+#[cfg(not(feature = "verif-hooks"))]
 use std::sync::*;
+#[cfg(feature = "verif-hooks")]
+use crate::verif::sync::*;
 use std::collections::vec_deque::*;
 
 use futures::task;
